@@ -1,6 +1,10 @@
 mod detect;
 mod driver;
 mod dump;
+mod gen;
+mod inventory;
+mod props;
+mod report;
 mod util;
 
 fn main() {
@@ -22,6 +26,21 @@ fn main() {
                 None => print!("{}", out),
             }
         }
+        Some("dump-inventory") => {
+            let out = inventory::inventory_lean("/repo");
+            match args.get(2) {
+                Some(path) => {
+                    let old = std::fs::read_to_string(path).unwrap_or_default();
+                    if old != out {
+                        std::fs::write(path, out).expect("write inventory");
+                        println!("inventory: rewritten {}", path);
+                    } else {
+                        println!("inventory: unchanged");
+                    }
+                }
+                None => print!("{}", out),
+            }
+        }
         Some("try") => {
             // try <hexbytes> : run both sides with default settings and print them
             let b = util::unhex(&args[2]);
@@ -33,9 +52,72 @@ fn main() {
             println!("model: {} (rounds {})", model.outcome.show(), model.rounds);
             println!("{}", if real == model.outcome { "AGREE" } else { "DISAGREE" });
         }
+        Some("prop") => {
+            // prop <id> <quick|thorough> <seed> [replay.json]
+            let id = args[2].as_str();
+            let thorough = args.get(3).map(|s| s == "thorough").unwrap_or(false);
+            let seed: u64 = args.get(4).and_then(|s| s.parse().ok()).unwrap_or(1);
+            let replay = args.get(5).map(|p| replay_case(p));
+            match props::by_id(id) {
+                Some(p) => {
+                    let rep = props::run_detect_prop(p.as_ref(), thorough, seed, replay);
+                    rep.finish();
+                }
+                None => {
+                    eprintln!("unknown property {}", id);
+                    std::process::exit(2);
+                }
+            }
+        }
         _ => {
-            eprintln!("usage: verif-harness dump-tables [path] | try <hex>");
+            eprintln!("usage: verif-harness dump-tables [path] | try <hex> | prop <id> <tier> <seed> [replay]");
             std::process::exit(2);
         }
     }
+}
+
+/// minimal JSON field extraction for replay files written by `report.rs`
+fn jfield<'a>(s: &'a str, key: &str) -> Option<&'a str> {
+    let pat = format!("\"{}\":", key);
+    let i = s.find(&pat)? + pat.len();
+    let rest = &s[i..];
+    if let Some(r) = rest.strip_prefix('"') {
+        let j = r.find('"')?;
+        Some(&r[..j])
+    } else {
+        let j = rest.find(|c| c == ',' || c == '}').unwrap_or(rest.len());
+        Some(&rest[..j])
+    }
+}
+fn jlist(s: &str, key: &str) -> Vec<String> {
+    let pat = format!("\"{}\":[", key);
+    match s.find(&pat) {
+        None => vec![],
+        Some(i) => {
+            let rest = &s[i + pat.len()..];
+            let j = rest.find(']').unwrap_or(0);
+            rest[..j]
+                .split(',')
+                .filter(|x| !x.is_empty())
+                .map(|x| String::from_utf8(util::unhex(x.trim_matches('"'))).unwrap_or_default())
+                .collect()
+        }
+    }
+}
+fn replay_case(path: &str) -> (Vec<u8>, detect::Sett) {
+    let s = std::fs::read_to_string(path).expect("replay file");
+    let bytes = util::unhex(jfield(&s, "bytes_hex").expect("bytes_hex"));
+    let st = &s[s.find("\"settings\":").expect("settings")..];
+    let sett = detect::Sett {
+        steps: jfield(st, "steps").unwrap().parse().unwrap(),
+        chunk: jfield(st, "chunk").unwrap().parse().unwrap(),
+        thr: f32::from_bits(jfield(st, "thr_bits").unwrap().parse().unwrap()),
+        lthr: f32::from_bits(jfield(st, "lthr_bits").unwrap().parse().unwrap()),
+        incl: jlist(st, "incl"),
+        excl: jlist(st, "excl"),
+        pre: jfield(st, "pre").unwrap() == "true",
+        fb: jfield(st, "fb").unwrap() == "true",
+        trace: jfield(st, "trace").unwrap() == "true",
+    };
+    (bytes, sett)
 }
